@@ -216,13 +216,13 @@ def replay_rows(model, cls="SinglePhaseReservoir", nx=4, nt=3, schedule=False, t
     return False, {"what": f"{cls} nx={nx}: every row of {len(runs)} real runs is the backward-Euler row", "inputs": {k: v for k, v in model.items() if k != "__uf__"}}
 
 
-def replay_tolerance(model, cls="SinglePhaseReservoir"):
+def replay_tolerance(model, cls="SinglePhaseReservoir", nx=None):
     """Relative residual of the stored levels on fine grids (small systems are solved exactly by a Krylov
     method; the scaled-up family of the witness is where a loose tolerance shows)."""
     import numpy as np
     worst = 0.0
     info = []
-    for nx in (30, 100, 200):
+    for nx in ((30, 100, 200) if not nx or nx <= 200 else (nx, nx + 100)):
         t = np.linspace(0, 2.0, 40) ** 2
         fluid = None if cls == "IdealReservoir" else _real_fluid()
         res, calls = real_capture(cls, nx, t, fluid, None if cls == "IdealReservoir" else np.full(len(t), 1000.0))
@@ -235,7 +235,7 @@ def replay_tolerance(model, cls="SinglePhaseReservoir"):
                          f"rounding level would be <= 1e-9", "inputs": {"B": model.get("B")}}
 
 
-def replay_flag(model, cls="SinglePhaseReservoir"):
+def replay_flag(model, cls="SinglePhaseReservoir", nx=5):
     """Adversary stage: the real code with the library solver replaced by one that reports failure."""
     import numpy as np
     t = np.array([0.0, 0.01, 0.03])
@@ -244,7 +244,7 @@ def replay_flag(model, cls="SinglePhaseReservoir"):
     def adversary(A, b):
         return np.full(len(b), 12345.0), 1
     try:
-        res, calls = real_capture(cls, 5, t, fluid, None if fluid is None else np.full(3, 1000.0), adversary=adversary)
+        res, calls = real_capture(cls, nx, t, fluid, None if fluid is None else np.full(3, 1000.0), adversary=adversary)
     except Exception as ex:  # noqa: BLE001
         return False, {"what": f"a solve reporting non-convergence raises {ex!r}"}
     if not calls or calls[0]["kind"] != "bicgstab":
@@ -422,14 +422,15 @@ def _validate_system(job, mod, cls, nx):
         job.validate("captured rhs entry", evalf(scalls[0]["b"][j], env), float(calls[0]["b"][j]), inputs={"j": j, "nx": nx})
 
 
-def job_tolerance(job, cls):
+def job_tolerance(job, cls, nx=4):
     mod = load_reservoir()
     job.encoded(mod, f"{cls}.simulate")
     job.assume_text("'rounding level relative to the right-hand side' is made precise as 1e-9 relative with an absolute floor of 1e-11; "
                     "a direct solve (spsolve) meets it by contract")
-    tag = f"{cls}"
+    tag = f"{cls}" + (f"[nx={nx}]" if nx != 4 else "")
+    job.bound(**{f"tolerance_nx_{cls[:6]}": "4 and 201, 401, 1001 (a solver chosen by grid size is seen at these sizes; one step)"})
     defaults = scipy_defaults()
-    for k, pr in enumerate(paths(job, lambda: _run(mod, cls, 4, 3, None) + (list(SS.LinSolve.calls),), [], max_paths=16)):
+    for k, pr in enumerate(paths(job, lambda: _run(mod, cls, nx, 3 if nx == 4 else 2, None) + (list(SS.LinSolve.calls),), [], max_paths=16)):
         if pr.exc is not None:
             job.errors.append(f"{tag} tolerance run raised {pr.exc!r}")
             continue
@@ -447,17 +448,17 @@ def job_tolerance(job, cls):
             allowed = s_max(atol, rtol * B)
             job.prove(f"{tag}/tolerance: step {i}: max(atol, rtol*B) <= 1e-9*B + 1e-11 for all B >= 0 (rtol={float(rtol)!r}, atol={float(atol)!r})",
                       [T.b_le0(T.p_neg(P(B))), T.b_lt(P(K("1e-9") * B + K("1e-11")), P(allowed))], bound="all B >= 0",
-                      replay=(replay_tolerance, {"cls": cls}))
+                      replay=(replay_tolerance, {"cls": cls, "nx": nx}))
 
 
-def job_flag(job, cls):
+def job_flag(job, cls, nx=4):
     mod = load_reservoir()
     job.encoded(mod, f"{cls}.simulate")
-    tag = f"{cls}"
-    for bad_call in (0, 1):
+    tag = f"{cls}" + (f"[nx={nx}]" if nx != 4 else "")
+    for bad_call in ((0, 1) if nx == 4 else (0,)):
         def pol(rec):
             return 1 if rec["index"] == bad_call else 0
-        res = paths(job, lambda: _run(mod, cls, 4, 3, pol) + (list(SS.LinSolve.calls),), [], catch=(Exception,), max_paths=16)
+        res = paths(job, lambda: _run(mod, cls, nx, 3 if nx == 4 else 2, pol) + (list(SS.LinSolve.calls),), [], catch=(Exception,), max_paths=16)
         for k, pr in enumerate(res):
             if pr.exc is not None:
                 job.record(f"{tag}/flag: info != 0 at solve {bad_call} raises {type(pr.exc).__name__}[path{k}]", "unsat", 0.0)
@@ -467,7 +468,7 @@ def job_flag(job, cls):
                 job.record(f"{tag}/flag: direct solve has no convergence flag (solve {bad_call})[path{k}]", "unsat", 0.0, note="spsolve")
                 continue
             job.prove(f"{tag}/flag: a solve reporting info != 0 at step {bad_call} completes normally and is stored[path{k}]", pr.pc,
-                      bound="nx=4, 2 steps", replay=(replay_flag, {"cls": cls}))
+                      bound=f"nx={nx}", replay=(replay_flag, {"cls": cls, "nx": max(nx, 5)}))
 
 
 # concrete replays run on the real code when the changed code uses something the engine does not model (harness.finish)
@@ -486,4 +487,7 @@ def jobs(tier):
         out.append((f"rows-reach-inttime-{cls[:6]}-3", lambda j, c=cls: job_rows(j, c, 3, 3, schedule=False, reachable=True, tdtype="i8")))
         out.append((f"tolerance-{cls[:6]}", lambda j, c=cls: job_tolerance(j, c)))
         out.append((f"flag-{cls[:6]}", lambda j, c=cls: job_flag(j, c)))
+        for big in ((201, 401) if tier == "quick" else (201, 401, 1001)):
+            out.append((f"tolerance-{cls[:6]}-{big}", lambda j, c=cls, n=big: job_tolerance(j, c, n)))
+            out.append((f"flag-{cls[:6]}-{big}", lambda j, c=cls, n=big: job_flag(j, c, n)))
     return out
